@@ -72,6 +72,13 @@ def parse_filter_dict(filter_dict: Dict[str, Any]) -> List[FilterExpression]:
                 expressions.append(FilterExpression(column, FilterOp.IS_NOT_NULL, None))
             else:
                 op = _parse_op(op_str)
+                if op in (FilterOp.IN, FilterOp.NOT_IN) and not isinstance(
+                    value, (list, tuple, set, frozenset, str, bytes, dict)
+                ) and hasattr(value, "__iter__"):
+                    # A one-shot iterable (generator, iterator, dict view) is
+                    # walked more than once: per file while pruning and again
+                    # for the row-level expression. Materialise it here.
+                    value = list(value)
                 expressions.append(FilterExpression(column, op, value))
         elif condition is None:
             # {"column": None} reads as "column IS NULL", but SQL equality with
